@@ -1,7 +1,7 @@
 (* C10 - Graph bookkeeping stays coherent under any history.  Statements and `exact` only. *)
 From Coq Require Import List String Bool NArith.
 From RC Require Import lib.Pep440 lib.Name model.Merge model.Graph model.Solver model.Check
-                       proofs.GraphWF proofs.CheckP proofs.WitnessGraph.
+                       proofs.GraphWF proofs.GraphFwd proofs.GraphFwdEx proofs.CheckP proofs.WitnessGraph.
 Import ListNotations.
 
 (* For EVERY sequence of graph operations (any arguments, entitled or not), any marker oracle and
@@ -52,3 +52,26 @@ Proof.
   split; [exact h_assertion_ok|exact h_unbounded_reexpansion_ok].
 Qed.
 Print Assumptions C10_refuted_internal_errors.
+
+(* Two clauses of the coherence statement hold for EVERY history (stale-source adds, cascades of any depth,
+   invalidations of nodes on cycles included): every dependency link of a project that is in the graph leads
+   to a project that is in the graph - no link points at a removed project - and that project lists the
+   source among its requirers - dependency links are mirrored.  (The converse direction, requirer links
+   mirrored by dependency links, is among the refuted clauses above.) *)
+Theorem C10_links_forward_coherent_all_histories :
+  forall fuel e ops g, grun fuel e empty_graph ops = Rok g ->
+  forall a na, alookup a (heap g) = Some na -> slookup (nkey na) (index g) = Some a ->
+  forall d r, In (d, r) (ndeps na) ->
+  exists nd, alookup d (heap g) = Some nd /\ slookup (nkey nd) (index g) = Some d /\ In a (nrdeps nd).
+Proof. exact history_links_forward_coherent. Qed.
+Print Assumptions C10_links_forward_coherent_all_histories.
+
+(* ... and the theorem is not vacuous: a recorded history ends in a graph whose indexed nodes carry at least
+   three links, on which the executable reading of the statement is true while full coherence is false. *)
+Theorem C10_forward_coherence_is_not_vacuous :
+  match grun 100 h_unsolved_with_links_env empty_graph h_unsolved_with_links_ops with
+  | Rok g => (Nat.leb 3 (indexed_links g), fwd_b g, coherent_b g [])
+  | Rer _ => (false, false, true)
+  end = (true, true, false).
+Proof. exact forward_coherence_speaks_about_links. Qed.
+Print Assumptions C10_forward_coherence_is_not_vacuous.
